@@ -246,8 +246,10 @@ func (node *mastNode) follow(ctx context.Context, i int, createOk bool, mast *Ma
 	} else if !createOk {
 		return node, nil
 	} else {
+		// The new child is linked into its parent by savePathForRoot, on the
+		// parent's own mutable copy; the node given here may be shared with
+		// other versions (or sit in the node cache) and must not be written to.
 		child := emptyNodePointer(cap(node.Key))
-		node.Link[i] = child
 		return child, nil
 	}
 }
